@@ -1302,6 +1302,94 @@ func min(a, b int) int {
 	return b
 }
 
+// c20ShutdownPollReturns: the long poll that is in flight when the signal arrives returns (empty) a moment
+// later, so the polling loop ends while a request is still at the backend: the request must not be
+// cancelled, its answer is uploaded, the agent exits when the grace period is over.
+func c20ShutdownPollReturns(sig syscall.Signal, grace, latency time.Duration) vx.Scenario {
+	return vx.Scenario{Name: fmt.Sprintf("c20/shutdown-poll-returns/%v/grace%v/lat%v", sig, grace, latency), PB: 1, Delay: true, MaxSteps: 20000, MaxTime: time.Minute,
+		Setup: func(s *vs.Sched) func(*vs.Result) vx.Exec {
+			w := newWorld(s)
+			w.lists = []listReply{{ids: []string{"a"}}, {ids: []string{}, delay: 300 * time.Millisecond}, {ids: []string{}, delay: 200 * time.Millisecond}}
+			w.backend["a"] = &backendPlan{latency: latency}
+			var sigAt time.Duration = -1
+			w.startAgent(fmt.Sprintf("--graceful-shutdown-timeout=%v", grace))
+			s.Thread("signal", func() {
+				vs.Wait("signal: handler registered and the request at the backend", nil, func() bool { return len(w.hooks.SignalRegs) > 0 && w.callsFor("a") > 0 && w.listStarted >= 2 })
+				w.touch()
+				sigAt = s.Now()
+				w.signal(sig)
+			})
+			return func(r *vs.Result) vx.Exec {
+				var x vx.Exec
+				baseViolations(r, &x)
+				x.Obs = fmt.Sprintf("sig=%v exit=%v@%v cancelled=%v upload=%v", sigAt, r.Exited, r.ExitAt, w.cancelled, w.uploadFor("a") != nil)
+				if sigAt < 0 {
+					return x
+				}
+				if !r.Exited || r.ExitAt != sigAt+grace {
+					x.Violations = append(x.Violations, fmt.Sprintf("EXITTIME: signal at %v with grace %v, exited=%v at %v", sigAt, grace, r.Exited, r.ExitAt))
+				}
+				if len(w.cancelled) > 0 {
+					x.Violations = append(x.Violations, fmt.Sprintf("CANCELLED: the request at the backend when %v arrived was cancelled %v into a grace period of %v (backend latency %v)", sig, "shortly", grace, latency))
+				}
+				if latency < grace {
+					u := w.uploadFor("a")
+					if u == nil {
+						x.Violations = append(x.Violations, fmt.Sprintf("DROPPED: the backend finished after %v, inside the grace period of %v, but no response was uploaded", latency, grace))
+					} else if p := parseUpload(u.raw); p.status != 200 || p.body != "response-for-a" {
+						x.Violations = append(x.Violations, fmt.Sprintf("DROPPED: the upload for the request at the backend carries %d %q", p.status, p.body))
+					}
+				}
+				for i, t := range w.listTimes {
+					if t > sigAt {
+						x.Violations = append(x.Violations, fmt.Sprintf("POLLING: list call %d started at %v, after the signal at %v", i+1, t, sigAt))
+					}
+				}
+				return x
+			}
+		}}
+}
+
+// c20SignalDuringStartup: the signal arrives after the handler is installed but while the agent is still
+// obtaining its credentials: no list call may start afterwards.
+func c20SignalDuringStartup(sig syscall.Signal, grace time.Duration) vx.Scenario {
+	return vx.Scenario{Name: fmt.Sprintf("c20/signal-during-startup/%v/grace%v", sig, grace), PB: 0, Single: true, MaxSteps: 20000, MaxTime: time.Minute,
+		Setup: func(s *vs.Sched) func(*vs.Result) vx.Exec {
+			w := newWorld(s)
+			w.hooks.ClientDelay = 300 * time.Millisecond
+			w.lists = []listReply{{ids: []string{"a"}}}
+			var sigAt time.Duration = -1
+			w.startAgent(fmt.Sprintf("--graceful-shutdown-timeout=%v", grace))
+			s.Thread("signal", func() {
+				vs.Wait("signal: handler registered", nil, func() bool { return len(w.hooks.SignalRegs) > 0 })
+				vtime.Sleep(150 * time.Millisecond)
+				w.touch()
+				sigAt = s.Now()
+				w.signal(sig)
+			})
+			return func(r *vs.Result) vx.Exec {
+				var x vx.Exec
+				baseViolations(r, &x)
+				x.Obs = fmt.Sprintf("sig=%v exit=%v@%v lists=%v calls=%d", sigAt, r.Exited, r.ExitAt, w.listTimes, len(w.calls))
+				if sigAt < 0 {
+					return x
+				}
+				for i, t := range w.listTimes {
+					if t > sigAt {
+						x.Violations = append(x.Violations, fmt.Sprintf("POLLING: list call %d started at %v, after the signal at %v (the agent was still starting up)", i+1, t, sigAt))
+					}
+				}
+				if len(w.calls) > 0 {
+					x.Violations = append(x.Violations, fmt.Sprintf("POLLING: %d requests were forwarded to the backend after the shutdown signal", len(w.calls)))
+				}
+				if !r.Exited || r.ExitAt > sigAt+grace {
+					x.Violations = append(x.Violations, fmt.Sprintf("EXITTIME: signal at %v with grace %v, exited=%v at %v", sigAt, grace, r.Exited, r.ExitAt))
+				}
+				return x
+			}
+		}}
+}
+
 // c20TwoSignals: a second SIGINT/SIGTERM during the grace period changes nothing: the agent still exits
 // when the period that the first signal started is over, and the request at the backend is answered.
 func c20TwoSignals(first, second syscall.Signal, grace, gap, latency time.Duration) vx.Scenario {
@@ -1392,6 +1480,8 @@ func c20SignalWhileUnhealthy(sig syscall.Signal, grace time.Duration, at time.Du
 func c20Scenarios(th bool) []vx.Scenario {
 	var out []vx.Scenario
 	for _, a := range []syscall.Signal{syscall.SIGINT, syscall.SIGTERM} {
+		out = append(out, c20ShutdownPollReturns(a, 5*time.Second, 2*time.Second), c20ShutdownPollReturns(a, 3*time.Second, time.Second))
+		out = append(out, c20SignalDuringStartup(a, 2*time.Second), c20SignalDuringStartup(a, 6*time.Second))
 		for _, b := range []syscall.Signal{syscall.SIGINT, syscall.SIGTERM} {
 			out = append(out, c20TwoSignals(a, b, 4*time.Second, 300*time.Millisecond, 1500*time.Millisecond))
 			out = append(out, c20TwoSignals(a, b, 2*time.Second, time.Second, 0))
